@@ -1,5 +1,6 @@
 import QcelVerif.Model.RadiiShipped
 import QcelVerif.Model.RadiiFactor
+import QcelVerif.Model.RadiiSrc
 import QcelVerif.Lib.Proto
 /-! Line-protocol driver for the C17 model.
 
@@ -15,6 +16,12 @@ taken from the implementation except, for `factor`, the double to be judged):
       -> ok <exact factor p/q> <rnd64 of it p/q> <withinTol: 1|0|->      | err Conv (unit outside the quantifier)
   getfull <2014|2018> <c|v> <rt 0|1> <i INT | s HEX> <missing: N | p/q> <units: N | xHEX>   -> as `get`
   toufull <2014|2018> <xUNITS of the Datum> <target: N | xHEX> <payload>                    -> as `tou` | err Conv
+
+ops through the bodies REGENERATED FROM THE SOURCE (Gen/RadiiSrc.lean run by the interpreter of Model/RadiiAst.lean;
+the dictionary is the one the source's `__init__` builds from the data files):
+  srcget <c|v> <rt 0|1> <i INT | s HEX> <missing: N | p/q> <units: N | xHEX> <conv …>         -> as `get` (same fields) | err <Exn>
+  srctoufull <2014|2018> <xUNITS of the Datum> <target: N | xHEX> <payload>                  -> as `toufull`
+  srckeys <c|v>                                                                              -> as `keys`
 -/
 open QcelVerif QcelVerif.PT QcelVerif.PStr QcelVerif.Proto QcelVerif.Radii
 
@@ -93,8 +100,48 @@ def xhex? (s : String) : Option Bytes :=
 def optXhex? (s : String) : Option (Option Bytes) :=
   if s == "N" then some none else (xhex? s).map some
 
+def showSrcOut : Except Src.Exn Out → String
+  | .ok o => showOut (.ok o)
+  | .error .notAnElement => "err NotAnElement"
+  | .error .dataUnavailable => "err DataUnavailable"
+  | .error .conv => "err Conv"
+  | .error .keyError => "err KeyError"
+  | .error .assertion => "err Assertion"
+  | .error .stuck => "err Stuck"
+
+def srcTableOf (s : String) : Option (Option Table) :=
+  if s == "c" then some Src.srcCovLoaded else if s == "v" then some Src.srcVdwLoaded else none
+
 def stepC17 (line : String) : String :=
   match splitOnChar line ' ' with
+  | ["srcget", set, rt, kind, payload, miss, units, conv] =>
+    let arg : Option PyVal :=
+      if kind == "i" then (parseInt? payload).map PyVal.int
+      else if kind == "s" then (unhex17 payload.toList).map PyVal.str
+      else none
+    let missing : Option (Option Rat) := if miss == "N" then some none else (parseRat? miss).map some
+    let rtb : Option Bool := if rt == "1" then some true else if rt == "0" then some false else none
+    match srcTableOf set, arg, missing, rtb, parseConv conv, optXhex? units with
+    | some tab, some a, some m, some r, some cv, some u =>
+      match tab with
+      | none => "err Load"
+      | some t =>
+        -- the factors on the line are those towards the unit the CALLER means (omitted = the documented default bohr);
+        -- which unit the body actually asks `conversion_factor` for is the body's business
+        let dst := u.getD bBohr
+        let convF : Bytes → Bytes → Option Rat := fun src d => if d == dst then convOf cv src else none
+        showSrcOut (if set == "c" then Src.srcCovGet shipped t convF a r u m else Src.srcVdwGet shipped t convF a r u m)
+    | _, _, _, _, _, _ => "bad-op"
+  | ["srctoufull", yr, u1, u2, p] =>
+    match codataOf yr, xhex? u1, optXhex? u2, parsePayload p with
+    | some cd, some ub, some tb, some pl =>
+      showSrcOut (Src.srcToUnits (convModel cd) { label := [], units := ub, data := pl, comment := none, doi := none } tb)
+    | _, _, _, _ => "bad-op"
+  | ["srckeys", set] =>
+    match srcTableOf set with
+    | some (some t) => "ok " ++ ",".intercalate ((dedup (t.map (·.1))).map toHex)
+    | some none => "err Load"
+    | none => "bad-op"
   | ["factor", yr, src, dst, fi] =>
     let fimpl : Option (Option Rat) := if fi == "-" then some none else (parseRat? fi).map some
     match codataOf yr, xhex? src, xhex? dst, fimpl with
